@@ -256,8 +256,9 @@ def splitCmdargs (buf : Str) : Option (List Str) :=
 
 Result: `argc`, the offsets stored in `argv[0..argc)` and the new contents of
 the line (the routines write terminators into it).  A loop function gets the
-cursor `data` with its offset `off` from the start of the line and returns the
-new contents of *that suffix*. -/
+cursor `data` and returns the pointers it stored as offsets *from that cursor*
+and the new contents of *that suffix*; the enclosing iteration adds the
+distance it has advanced (at top level the cursor is the line itself). -/
 
 def wsArgv : Str := [SP, CR, NL, TAB]
 
@@ -277,55 +278,57 @@ def scanTokZ : Cur → Option Cur
   | [] => none
   | c :: rest => if !strchrHit wsArgv c && c != NUL then scanTokZ rest else some (c :: rest)
 
-def argvSplitGo (argcmax : Nat) : Nat → Nat → Cur → Nat → Option ArgvRes
-  | 0, _, _, _ => none
-  | f + 1, off, data, argc => do
+def argvSplitGo (argcmax : Nat) : Nat → Cur → Nat → Option ArgvRes
+  | 0, _, _ => none
+  | f + 1, data, argc => do
     let d1 ← skipWsZ data
-    let off1 := off + (data.length - d1.length)
     let c ← d1.head?
     -- if (*data == '\0' || argc >= argcmax) return argc;
     if c == NUL || argc ≥ argcmax then some ⟨argc, [], data⟩ else
     -- argv[argc++] = data;
+    let o1 := data.length - d1.length
     let d2 ← scanTokZ d1
     let c2 ← d2.head?
     -- if (*data == '\0') return argc;
-    if c2 == NUL then some ⟨argc + 1, [off1], data⟩ else
+    if c2 == NUL then some ⟨argc + 1, [o1], data⟩ else
     if strchrHit wsArgv c2 then
       -- *data++ = '\0'; continue;
-      let r ← argvSplitGo argcmax f (off + (data.length - d2.length) + 1) d2.tail (argc + 1)
-      some ⟨r.argc, off1 :: r.argv, data.take (data.length - d2.length) ++ NUL :: r.mem⟩
-    else some ⟨argc + 1, [off1], data⟩                      -- break (unreachable)
+      let k := data.length - d2.length + 1
+      let r ← argvSplitGo argcmax f d2.tail (argc + 1)
+      some ⟨r.argc, o1 :: r.argv.map (· + k), data.take (k - 1) ++ NUL :: r.mem⟩
+    else some ⟨argc + 1, [o1], data⟩                        -- break (unreachable)
 
 /-- `argvc_internal_split(data, argv, argcmax)`; `data` = the whole allocation -/
 def argvSplit (data : Str) (argcmax : Nat) : Option ArgvRes :=
-  argvSplitGo argcmax (data.length + 1) 0 data 0
+  argvSplitGo argcmax (data.length + 1) data 0
 
-def argvSplitNGo (argcmax : Nat) : Nat → Nat → Cur → Nat → Option ArgvRes
-  | 0, _, _, _ => none
-  | f + 1, off, data, argc =>
+def argvSplitNGo (argcmax : Nat) : Nat → Cur → Nat → Option ArgvRes
+  | 0, _, _ => none
+  | f + 1, data, argc =>
     -- while (data != eptr && strchr(ws, *data)) ++data;
     let d1 := data.dropWhile (strchrHit wsArgv)
-    let off1 := off + (data.length - d1.length)
     -- if (data == eptr || *data == '\0' || argc >= argcmax) return argc;
     match d1 with
     | [] => some ⟨argc, [], data⟩
     | c :: _ =>
       if c == NUL || argc ≥ argcmax then some ⟨argc, [], data⟩ else
       -- argv[argc++] = data; while (data != eptr && !strchr(ws, *data)) ++data;
+      let o1 := data.length - d1.length
       let d2 := d1.dropWhile (fun c => !strchrHit wsArgv c)
       -- if (data != eptr && strchr(ws, *data)) { *data++ = '\0'; goto newarg_search; }
       match d2 with
-      | [] => some ⟨argc + 1, [off1], data⟩
+      | [] => some ⟨argc + 1, [o1], data⟩
       | c2 :: rest2 =>
         if strchrHit wsArgv c2 then
-          match argvSplitNGo argcmax f (off + (data.length - d2.length) + 1) rest2 (argc + 1) with
+          let k := data.length - d2.length + 1
+          match argvSplitNGo argcmax f rest2 (argc + 1) with
           | none => none
-          | some r => some ⟨r.argc, off1 :: r.argv, data.take (data.length - d2.length) ++ NUL :: r.mem⟩
-        else some ⟨argc + 1, [off1], data⟩
+          | some r => some ⟨r.argc, o1 :: r.argv.map (· + k), data.take (k - 1) ++ NUL :: r.mem⟩
+        else some ⟨argc + 1, [o1], data⟩
 
 /-- `argvc_internal_split_n(data, maxlen, argv, argcmax)` on exactly `maxlen` bytes -/
 def argvSplitN (data : Str) (argcmax : Nat) : Option ArgvRes :=
-  argvSplitNGo argcmax (data.length + 1) 0 data 0
+  argvSplitNGo argcmax (data.length + 1) data 0
 
 /-- the C string at offset `off` of `mem` (`strlen`/`strcmp`/handler reads):
 a fault if no terminator follows inside `mem` -/
